@@ -136,9 +136,26 @@ class Recorder(object):
         if not self.want(name):
             return
 
+        native_raw = native
+
+        class Mutated(Exception):
+            pass
+
+        def native(env):
+            # the installed function is called on the instance's own arrays; writing into them is an observable effect (refuted),
+            # and must not poison the instances that follow
+            snap = {k_: v_.copy() for k_, v_ in env.items() if isinstance(v_, np.ndarray)}
+            out = native_raw(env)
+            changed = [k_ for k_, v_ in snap.items() if not np.array_equal(v_, env[k_], equal_nan=True)]
+            if changed:
+                for k_ in changed:
+                    env[k_][...] = snap[k_]
+                raise Mutated('the call writes into its argument array(s) %s' % changed)
+            return out
+
         def go():
             if self.replay_env is not None:
-                return self._replay_identity(spec, native, self.replay_env)
+                return self._replay_identity(spec, native_raw, self.replay_env)
             t0 = time.time()
             status, res, nz = normal.prove_equal(traced, spec, conds)
             # conformance of the engine model, always (instances must lie on the traced path)
@@ -156,6 +173,8 @@ class Recorder(object):
                 done += 1
                 try:
                     vn = native(env)
+                except Mutated as ex:
+                    return ('refuted', 'native replay', '%s (float64 arrays passed by the caller are modified in place)' % ex, {'env': jsonable(env), 'expected': 'arguments unchanged', 'observed': str(ex)})
                 except Exception as ex:
                     return ('refuted', 'native replay', 'native call raises %r where the contract promises a value' % (ex,),
                             {'env': jsonable(env), 'expected': 'a value', 'observed': repr(ex)})
@@ -178,6 +197,8 @@ class Recorder(object):
                 tried += 1
                 try:
                     vn = native(env)
+                except Mutated as ex:
+                    return ('refuted', 'native replay', '%s (float64 arrays passed by the caller are modified in place)' % ex, {'env': jsonable(env), 'expected': 'arguments unchanged', 'observed': str(ex)})
                 except Exception as ex:
                     return ('refuted', 'native replay', 'native call raises %r where the contract promises a value' % (ex,),
                             {'env': jsonable(env), 'expected': jsonable(vs), 'observed': repr(ex)})
